@@ -1743,7 +1743,13 @@ def hexpupil_features(cfg, kept):
             m = (kept[ii[k]] + kept[jj[k]]) / 2
             feats.append(([float(m[0]), float(m[1])], max(4 * cfg['gap'], size / 16), 'gap'))
     if cfg.get('obs') is not None:
-        feats.append(([float(cfg['obs']) * 0.6, float(cfg['obs']) * 0.8], size / 2, 'obscuration-rim'))
+        # the obscuration's rim towards the innermost kept segments (the ones it cuts), else a fixed direction
+        dirs = [(0.6, 0.8)]
+        if kept is not None and len(kept):
+            near0 = np.argsort(np.hypot(kept[:, 0], kept[:, 1]))[:6]
+            dirs = [(float(kept[i, 0] / np.hypot(*kept[i])), float(kept[i, 1] / np.hypot(*kept[i]))) for i in near0 if np.hypot(*kept[i]) > 0]
+        for ux, uy in dirs:
+            feats.append(([float(cfg['obs']) * ux, float(cfg['obs']) * uy], size / 2, 'obscuration-rim'))
     if cfg.get('hicat'):
         feats.append(([0.0, 0.0], cfg['centralsize'], 'central-segment'))
         feats.append(([cfg['centralsize'] / 2 * 0.8, 0.0], cfg['centralsize'] / 8, 'central-segment-edge'))
@@ -2435,7 +2441,12 @@ def run(ctx):
                 'transmission, field attached to the grid, evaluate_supersampled in [0,1] and equal on regular/separated. '
                 'Correspondence: Lean model of both code paths, point by point, skipping points the model flags as within '
                 '1e-7*scale of a decision (counted in boundary_skipped). Telescope pupils: every maker of realistic.py with '
-                'every combination of its boolean flags (+ telescope variants, random transmissions, gap padding), oracle only. '
+                'every combination of its boolean flags (+ telescope variants, random transmissions, gap padding), oracle only; '
+                'Keck, VLT (+quadrants), LUVOIR A/B, ELT, TMT, HiCAT (+returned segments) also against the model, which derives the '
+                'segment lattice, the dropped segments, obscuration and spiders itself (segment centres observed on the real maker), '
+                'on directed zooms at dropped sites / gaps / rims / spider crossings; Magellan, Hale, HabEx, HST as recipes. '
+                'Exactly representable boundaries (dyadic axis-aligned rectangles, circles, spiders) are compared ON the boundary '
+                'with tolerance 0. '
                 'Non-trivial = the field is neither all zero nor all non-zero; distinct by (maker, grid kind, #points, #non-zero).')
     ctx.assumptions += ['matplotlib Path.contains_points implements the even-odd crossing rule away from the boundary',
                         'cos/sin/apothem constants are recomputed by the harness with the NumPy expressions of the maker closures',
@@ -2518,19 +2529,27 @@ def run(ctx):
         for li, flabel in enumerate(HEXMODEL_FEATURES[name]):
             if flabel == 'spider' and ctx.quick():
                 continue            # quick tier: 'spider-crossings' visits every spider in one case
-            for k in ([int(ctx.rng.integers(0, 5))] if ctx.quick() else range(5)):
-                for fine in ([bool(ctx.rng.integers(0, 2))] if ctx.quick() else (False, True)):
+            for k in ([int(ctx.rng.integers(0, 5))] if ctx.quick() else range(2 if name in HEAVY else 3)):
+                for fine in ([bool(ctx.rng.integers(0, 2))] if ctx.quick() or flabel == 'spider-crossings' else (False, True)):
                     kw = cfgs5[int(ctx.rng.integers(0, len(cfgs5)))]
                     if flabel.startswith('spider') and kw.get('with_spiders') is False:
                         kw = cfgs5[0]
                     fam = 'regular' if (li + k) % 2 == 0 else str(ctx.rng.choice(['sep-asc', 'sep-desc', 'sep-permuted', 'regular-reversed', 'regular-scaled-1']))
                     if flabel == 'spider-crossings':
                         fam = 'pts'
+                    if flabel == 'obscuration-rim' and ctx.quick():
+                        # the returned segments are wrapped differently with and without spiders: both branches in every run
+                        for kw2 in (cfgs5[0], cfgs5[2]):
+                            l, chk = run_hexpupil(ctx, name, kw2, int(ctx.rng.integers(0, 2 ** 31)), fam, feat=[flabel, k, False])
+                            checks.append((len(lines), len(l), chk))
+                            lines += l
+                        continue
                     l, chk = run_hexpupil(ctx, name, kw, int(ctx.rng.integers(0, 2 ** 31)), fam, feat=[flabel, k, fine])
                     checks.append((len(lines), len(l), chk))
                     lines += l
-        for _ in range(ctx.scale(1, 2)):
-            fams = [str(f) for f in ctx.rng.choice(FAMILIES, 1 if name in HEAVY else 2, replace=False)] if ctx.quick() else FAMILIES
+        for _ in range(ctx.scale(1, 1 if name in HEAVY else 2)):
+            fams = ([str(f) for f in ctx.rng.choice(FAMILIES, 1 if name in HEAVY else 2, replace=False)] if ctx.quick()
+                    else [f for f in FAMILIES if name not in HEAVY or ctx.rng.random() < 0.5])
             for fam in fams:
                 kw = cfgs5[int(ctx.rng.integers(0, len(cfgs5)))]
                 l, chk = run_hexpupil(ctx, name, kw, int(ctx.rng.integers(0, 2 ** 31)), fam)
